@@ -745,12 +745,14 @@ class Gen:
             name = f"sc{self.uid()}"
             inner: list[Node] = []
             labels = []
+            self.body_names.append(set())  # one name set for the whole named scope
             for _ in range(rng.randrange(1, 3)):
                 l = f"s{self.uid()}"
                 self.note_label(l)
                 labels.append(l)
                 inner.append(stmt(f"{l}:", "label"))
-                inner += self.body(1, False, None, want=rng.randrange(1, 3))
+                inner += self.body(1, False, None, want=rng.randrange(1, 3), new_scope=False)
+            self.body_names.pop()
             for l in labels:
                 self.globals.append(f"{name}.{l}")
                 self.prog.global_labels.append(f"{name}.{l}")
@@ -841,6 +843,8 @@ class Gen:
         for s in range(n_sections):
             bank = self.pick_section_bank(far)
             addr = (bank << 16) | pick_offset(rng, self.mapping if not use_map else "low")
+            if self.size > 40:
+                addr = (bank << 16) | (0x8000 + rng.choice([0, 0x10, 0x123]))  # long sections start low in the window
             section_addrs.append(addr)
             n0 = stmt(f"*={addr:#08x}" if rng.random() < 0.7 else f"*= {addr:#x}", "stareq")
             if s == 0:
